@@ -169,7 +169,9 @@ def run_impl(c):
         from datascope.importance.utility import SklearnModelAccuracy
         from sklearn.neighbors import KNeighborsClassifier
         util = SklearnModelAccuracy(KNeighborsClassifier(n_neighbors=1))
-        yv = r.randint(0, k, size=t)
+        # imbalanced validation labels, SORTED by class: any partition of the validation set into consecutive batches gives
+        # batches that disagree on their rarest class (the efficiency identity refers to the null utility of the WHOLE set)
+        yv = np.sort(r.choice(k, size=t, p=np.arange(1, k + 1) / (k * (k + 1) / 2.0)))
         U = (np.arange(k).reshape(-1, 1) == yv.reshape(1, -1)).astype(float)
         counts = [int(np.sum(yv == cl)) for cl in range(k)]
         worst = counts.index(min(counts))
